@@ -1,0 +1,45 @@
+//go:build verif
+
+package gortsplib
+
+// Contracts checked by /verif/govc (see /verif/DESIGN.md). Comment-only file.
+
+// --- C17: transports a server connection accepts ------------------------------------------
+// A secure profile needs TLS (keys travel in the RTSP exchange); over RTSPS, UDP must use the
+// secure profile; UDP is never combined with a tunnel and needs the listeners.
+//@ func isTransportSupported
+//@   opt safety-tag=C17
+//@   requires sc != nil && tr != nil && sc.s != nil
+//@   ensures[C17] ret ==> (tr.Profile == headers.TransportProfileSAVP ==> sc.s.TLSConfig != nil)
+//@   ensures[C17] ret && tr.Protocol == headers.TransportProtocolUDP && sc.s.TLSConfig != nil ==> tr.Profile == headers.TransportProfileSAVP
+//@   ensures[C17] ret && tr.Protocol == headers.TransportProtocolUDP ==> sc.tunnel == TunnelNone
+//@   ensures[C17] ret && tr.Protocol == headers.TransportProtocolUDP && (tr.Delivery == nil || *tr.Delivery != headers.TransportDeliveryMulticast) ==> sc.s.udpRTPListener != nil
+//@   ensures[C17] ret && tr.Protocol == headers.TransportProtocolUDP && tr.Delivery != nil && *tr.Delivery == headers.TransportDeliveryMulticast ==> sc.s.MulticastIPRange != ""
+//@   modifies nothing
+
+// The client never follows a redirect from rtsps to a non-rtsps URL: when the scheme is
+// replaced by the redirect target's, an rtsps connection stays rtsps (callees abstracted).
+//@ func (c *Client) doDescribe
+//@   opt inline=0
+//@   assert[C17]@store:Scheme c.Scheme == "rtsps" ==> ru.Scheme == "rtsps"
+//@   modifies *
+
+//@ func (c *Client) doSetup
+//@   opt inline=0
+//@   modifies *
+
+//@ func (c *Client) do
+//@   opt inline=0
+//@   modifies *
+
+//@ func (ss *ServerSession) handleRequestInner
+//@   opt inline=0
+//@   modifies *
+
+//@ func (sc *ServerConn) handleRequestInner
+//@   opt inline=0
+//@   modifies *
+
+//@ func (sc *ServerConn) handleRequestOuter
+//@   opt inline=0
+//@   modifies *
